@@ -540,6 +540,38 @@ def m_str_starts_with(interp, path, args, ret_ty, callee):
     return BoolV(s_.bytes[0] == args[1].term)
 
 
+@model(r"^<&?str as PartialEq(<&?str>)?>::(eq|ne)$", "same length and same bytes")
+def m_str_eq(interp, path, args, ret_ty, callee):
+    a, b = _symstr(interp, path, args[0]), _symstr(interp, path, args[1])
+    if len(a.bytes) != len(b.bytes):
+        eq = z3.BoolVal(False)
+    else:
+        eq = z3.And([x == y for x, y in zip(a.bytes, b.bytes)]) if a.bytes else z3.BoolVal(True)
+    return BoolV(eq if canon(callee).endswith("::eq") else z3.Not(eq))
+
+
+@model(r"<impl str>::starts_with::<&str>$", "prefix test against a string")
+def m_str_starts_with_str(interp, path, args, ret_ty, callee):
+    a, b = _symstr(interp, path, args[0]), _symstr(interp, path, args[1])
+    if len(b.bytes) > len(a.bytes):
+        return BoolV(False)
+    return BoolV(z3.And([x == y for x, y in zip(a.bytes, b.bytes)]) if b.bytes else z3.BoolVal(True))
+
+
+@model(r"<impl str>::ends_with::<char>$", "last byte equals the (ASCII) char")
+def m_str_ends_with(interp, path, args, ret_ty, callee):
+    a = _symstr(interp, path, args[0])
+    if not a.bytes:
+        return BoolV(False)
+    return BoolV(a.bytes[-1] == args[1].term)
+
+
+@model(r"<impl str>::contains::<char>$", "some byte equals the (ASCII) char")
+def m_str_contains(interp, path, args, ret_ty, callee):
+    a = _symstr(interp, path, args[0])
+    return BoolV(z3.Or([x == args[1].term for x in a.bytes]) if a.bytes else z3.BoolVal(False))
+
+
 @model(r"<impl str>::split::<char>$", "lazy split on an ASCII char")
 def m_str_split(interp, path, args, ret_ty, callee):
     return StructV("StrSplitChar", [_symstr(interp, path, args[0]), args[1]])
@@ -796,6 +828,13 @@ def m_res_map(interp, path, args, ret_ty, callee):
 # insertion order (a CONCRETE number of entries chosen by the job; keys are distinct opaque values). Only the
 # consuming-iterator pipeline `into_iter().map(f).collect::<Result<IndexMap, E>>()` is modelled: f is applied to the
 # entries in order, the first Err is returned, otherwise the map of the results in the same order.
+def _closure_of(clo):
+    """(closure type string, closure value) for a capturing closure struct or a capture-less closure item"""
+    if clo.kind == "fn":
+        return clo.name, StructV(clo.name, [])
+    return clo.ty, clo
+
+
 def _is_indexmap(v):
     return v.kind == "struct" and norm_ty(v.ty).startswith("IndexMap<")
 
@@ -831,8 +870,9 @@ def m_iter_collect_result_map(interp, path, args, ret_ty, callee):
             ok_ty = inner_ty(ret_ty) if ret_ty else "IndexMap<?>"
             outs.append(Outcome(p, "ret", EnumV(ret_ty, 0, {0: [StructV(ok_ty, acc)]})))
             continue
-        f = interp.pick_closure(clo.ty, [entries[i]], None)
-        for o in interp.call_function(f, [_ConstRef("&mut " + clo.ty, clo), entries[i]], p):
+        cty, cval = _closure_of(clo)
+        f = interp.pick_closure(cty, [entries[i]], None)
+        for o in interp.call_function(f, [_ConstRef("&mut " + cty, cval), entries[i]], p):
             if o.kind != "ret":
                 outs.append(o)
                 continue
@@ -1034,6 +1074,133 @@ def m_map_new(interp, path, args, ret_ty, callee):
 @model(r"^Vec::<.*>::new$", "empty vector")
 def m_vec_new(interp, path, args, ret_ty, callee):
     return StructV(ret_ty or "Vec<?>", [])
+
+
+# ---------------------------------------------------------------- consuming iteration over an IndexMap entry list
+@model(r"^<(map::)?IntoIter<.*> as IntoIterator>::into_iter$", "an iterator is its own IntoIterator")
+def m_intoiter_identity(interp, path, args, ret_ty, callee):
+    return args[0]
+
+
+@model(r"^<(map::)?IntoIter<.*> as Iterator>::next$", "pop the first remaining entry (insertion order)")
+def m_intoiter_next(interp, path, args, ret_ty, callee):
+    r = args[0]
+    if r.kind != "ref" or hasattr(r, "target"):
+        raise Refuse("Iterator::next needs a reference to the iterator place")
+    it = interp.read(path, r.fid, r.local, r.projs)
+    if it.kind != "struct" or it.ty != "IndexMapIntoIter":
+        raise Refuse("Iterator::next on %r" % (it,))
+    if not it.fields:
+        return EnumV(ret_ty, 0, {0: []})
+    interp.write(path, r.fid, r.local, r.projs, StructV("IndexMapIntoIter", it.fields[1:]))
+    return EnumV(ret_ty, 1, {1: [it.fields[0]]})
+
+
+def _entries_to_symmap(entries, ty="SymMap<collected>"):
+    return StructV(ty, [StructV("Slot", [e.fields[0], e.fields[1], BoolV(True)]) for e in entries])
+
+
+@model(r"^<(map::)?IntoIter<.*> as Iterator>::collect::<BTreeMap<.*>$",
+       "collect distinct-keyed entries into a dictionary: one present slot per entry")
+def m_intoiter_collect_btree(interp, path, args, ret_ty, callee):
+    it = args[0]
+    if it.kind != "struct" or it.ty != "IndexMapIntoIter":
+        raise Refuse("collect over %r" % (it,))
+    return _entries_to_symmap(it.fields)
+
+
+@model(r"^<(map::)?IntoIter<.*> as Iterator>::filter_map::<.*>$", "lazy filter_map adaptor (iterator, closure)")
+def m_iter_filter_map(interp, path, args, ret_ty, callee):
+    if args[0].kind != "struct" or args[0].ty != "IndexMapIntoIter":
+        raise Refuse("Iterator::filter_map over %r" % (args[0],))
+    return StructV("IterFilterMap", [args[0], args[1]])
+
+
+def _materialize(interp, path, it):
+    """evaluate a lazy adaptor chain over an entry list: -> [(path, [items])] plus non-returning outcomes"""
+    from .interp import _ConstRef
+    if it.kind == "struct" and norm_ty(it.ty).startswith("IndexMap<"):
+        return [(path, list(it.fields))], []
+    if it.kind == "struct" and it.ty == "IndexMapIntoIter":
+        return [(path, list(it.fields))], []
+    if it.kind == "struct" and it.ty in ("IterMap", "IterFilterMap"):
+        base, bad = _materialize(interp, path, it.fields[0])
+        clo = it.fields[1]
+        done = []
+        for p0, items in base:
+            work = [(p0, 0, [])]
+            while work:
+                p, i, acc = work.pop()
+                if i == len(items):
+                    done.append((p, acc))
+                    continue
+                cty, cval = _closure_of(clo)
+                f = interp.pick_closure(cty, [items[i]], None)
+                for o in interp.call_function(f, [_ConstRef("&mut " + cty, cval), items[i]], p):
+                    if o.kind != "ret":
+                        bad.append(o)
+                    elif it.ty == "IterMap":
+                        work.append((o.path, i + 1, acc + [o.value]))
+                    else:
+                        r = o.value
+                        for p2, tag in interp.fork(o.path, [(r.discr == 1, "some"), (r.discr == 0, "none")]):
+                            work.append((p2, i + 1, acc + [r.variants[1][0]] if tag == "some" else acc))
+        return done, bad
+    raise Refuse("cannot iterate %r" % (it,))
+
+
+@model(r"^<Map<.*> as Iterator>::collect::<(BTreeMap|IndexMap)<.*>$",
+       "apply the closure to every entry in order and collect the (key, value) results into a dictionary / entry list")
+def m_itermap_collect_map(interp, path, args, ret_ty, callee):
+    it = args[0]
+    if it.kind != "struct" or it.ty != "IterMap":
+        raise Refuse("collect over %r" % (it,))
+    from .interp import _ConstRef
+    entries, clo = it.fields[0].fields, it.fields[1]
+    to_btree = "collect::<BTreeMap" in canon(callee)
+    outs = []
+    work = [(path, 0, [])]
+    while work:
+        p, i, acc = work.pop()
+        if i == len(entries):
+            v = _entries_to_symmap(acc) if to_btree else StructV(ret_ty or "IndexMap<?>", acc)
+            outs.append(Outcome(p, "ret", v))
+            continue
+        cty, cval = _closure_of(clo)
+        f = interp.pick_closure(cty, [entries[i]], None)
+        for o in interp.call_function(f, [_ConstRef("&mut " + cty, cval), entries[i]], p):
+            if o.kind != "ret":
+                outs.append(o)
+            else:
+                work.append((o.path, i + 1, acc + [o.value]))
+    return outs
+
+
+@model(r"^<BTreeMap<.*> as Extend<.*>>::extend::<.*>$",
+       "insert every (key, value) the argument yields, in order (IndexMap, or a map / filter_map chain over one)")
+def m_btree_extend(interp, path, args, ret_ty, callee):
+    mref = args[0]
+    sources, outs = _materialize(interp, path, args[1])
+    work = [(p, 0, items) for p, items in sources]
+    while work:
+        p, i, items = work.pop()
+        if i == len(items):
+            outs.append(Outcome(p, "ret", UnitV()))
+            continue
+        e = items[i]
+        found, key = _map_find(interp, p, mref, e.fields[0])
+        for p1, slot in found:
+            if slot is not None:
+                _map_put(interp, p1, mref, slot, key, e.fields[1])
+                work.append((p1, i + 1, items))
+                continue
+            for p2, j in _map_free_slot(interp, p1, mref):
+                if j == "full":
+                    outs.append(Outcome(p2, "unwind", msg="map capacity bound exceeded in extend"))
+                else:
+                    _map_put(interp, p2, mref, j, key, e.fields[1])
+                    work.append((p2, i + 1, items))
+    return outs
 
 
 # ---------------------------------------------------------------- std blanket conversions
